@@ -353,39 +353,69 @@ func wireInclusion(a, b *wireNFA) (ok bool, at *wireNode, expected []*wireNode, 
 // variable (an SSA value chain ending in result #0, or a cell captured by closures); y is the
 // result of the varint encoder (U) or a one-element varargs array (B).
 func encClassifier(c *Ctx, fn *ssa.Function, varintEnc string) func(*wctx, ssa.Instruction) string {
-	// value chain (no closures): values that flow into result #0 through phi / append / slice
-	chain := map[ssa.Value]bool{}
+	// value chain: values that flow into result #0 through phi / append / slice, and through module
+	// helpers that take the output slice and return it extended (b = appendRecord(b, ...))
+	chains := map[*ssa.Function]map[ssa.Value]bool{}
 	var outCell ssa.Value
-	var work []ssa.Value
-	for _, b := range fn.Blocks {
-		if ret, ok := b.Instrs[len(b.Instrs)-1].(*ssa.Return); ok && len(ret.Results) > 0 {
-			work = append(work, ret.Results[0])
+	var chainFrom func(f *ssa.Function, res int, depth int) map[ssa.Value]bool
+	chainFrom = func(f *ssa.Function, res int, depth int) map[ssa.Value]bool {
+		if ch, ok := chains[f]; ok {
+			return ch
 		}
-	}
-	for len(work) > 0 {
-		v := work[len(work)-1]
-		work = work[:len(work)-1]
-		if chain[v] {
-			continue
-		}
-		chain[v] = true
-		switch x := v.(type) {
-		case *ssa.Phi:
-			work = append(work, x.Edges...)
-		case *ssa.Call:
-			if b, ok := x.Call.Value.(*ssa.Builtin); ok && b.Name() == "append" {
-				work = append(work, x.Call.Args[0])
+		chain := map[ssa.Value]bool{}
+		chains[f] = chain
+		var work []ssa.Value
+		for _, b := range f.Blocks {
+			if ret, ok := b.Instrs[len(b.Instrs)-1].(*ssa.Return); ok && len(ret.Results) > res {
+				work = append(work, ret.Results[res])
 			}
-		case *ssa.Slice:
-			work = append(work, x.X)
-		case *ssa.UnOp:
-			if x.Op == token.MUL {
-				if al, ok := x.X.(*ssa.Alloc); ok {
-					outCell = al // the output lives in a variable captured by closures
+		}
+		for len(work) > 0 {
+			v := work[len(work)-1]
+			work = work[:len(work)-1]
+			if chain[v] {
+				continue
+			}
+			chain[v] = true
+			switch x := v.(type) {
+			case *ssa.Phi:
+				work = append(work, x.Edges...)
+			case *ssa.Extract:
+				work = append(work, x.Tuple)
+			case *ssa.Call:
+				if b, ok := x.Call.Value.(*ssa.Builtin); ok && b.Name() == "append" {
+					work = append(work, x.Call.Args[0])
+					break
+				}
+				if callee := x.Call.StaticCallee(); callee != nil && c.inModule(callee) && callee.Blocks != nil && depth < 4 && c.short(callee) != varintEnc {
+					ri := 0
+					if refs := x.Referrers(); refs != nil {
+						for _, ref := range *refs {
+							if ex, ok := ref.(*ssa.Extract); ok && chain[ex] {
+								ri = ex.Index
+							}
+						}
+					}
+					sub := chainFrom(callee, ri, depth+1)
+					for k, prm := range callee.Params {
+						if sub[prm] && k < len(x.Call.Args) {
+							work = append(work, x.Call.Args[k])
+						}
+					}
+				}
+			case *ssa.Slice:
+				work = append(work, x.X)
+			case *ssa.UnOp:
+				if x.Op == token.MUL && f == fn {
+					if al, ok := x.X.(*ssa.Alloc); ok {
+						outCell = al // the output lives in a variable captured by closures
+					}
 				}
 			}
 		}
+		return chain
 	}
+	chainFrom(fn, 0, 0)
 	// lastStored: the value most recently stored (earlier in the same block) into the cell read by ld
 	lastStored := func(ctx *wctx, ld *ssa.UnOp) ssa.Value {
 		cell := cellOf(ctx, ld.X)
@@ -412,7 +442,7 @@ func encClassifier(c *Ctx, fn *ssa.Function, varintEnc string) func(*wctx, ssa.I
 		if !ok || b.Name() != "append" {
 			return ""
 		}
-		isOut := ctx.fn == fn && chain[call]
+		isOut := chains[ctx.fn][call]
 		if !isOut && outCell != nil {
 			for _, ref := range *call.Referrers() {
 				if st, ok := ref.(*ssa.Store); ok && st.Val == ssa.Value(call) && cellOf(ctx, st.Addr) == outCell {
